@@ -296,6 +296,14 @@ impl StoreCampaign {
       5 => { if bytes.len() > 4 { let i = rng.below(bytes.len() - 2); let j = i + 1 + rng.below(bytes.len() - i - 1); let chunk: Vec<u8> = bytes[i..j].to_vec(); let at = rng.below(bytes.len()); for (o, b) in chunk.into_iter().enumerate() { bytes.insert(at + o, b); } faults[2] += 1; } }
       6 => { if bytes.len() > 4 { let i = rng.below(bytes.len() - 2); let j = i + 1 + rng.below(bytes.len() - i - 1); bytes.drain(i..j); faults[3] += 1; } }
       7 => { if bytes.len() > 8 { let bs = 1 + rng.below(bytes.len() / 4); let i = rng.below(bytes.len() - 2 * bs + 1); let (a, b) = (bytes[i..i + bs].to_vec(), bytes[i + bs..i + 2 * bs].to_vec()); bytes[i..i + bs].copy_from_slice(&b); bytes[i + bs..i + 2 * bs].copy_from_slice(&a); faults[4] += 1; } }
+      8 if rng.chance(1, 4) => {
+        // a file that nests far deeper than any layout (recursion in the reader, the parser or the converter)
+        let depth = [100usize, 127, 128, 129, 1000, 40_000][rng.below(6)];
+        let (open, close) = if rng.chance(1, 2) { ("[", "]") } else { ("{\"a\":", "}") };
+        let inner = format!("{}{}{}", open.repeat(depth), if open == "[" { "" } else { "0" }, close.repeat(depth));
+        let doc = match rng.below(3) { 0 => inner, 1 => format!("{{\"mappings\": {}}}", inner), _ => format!("{{\"mappings\": [{{\"from\": \"A\", \"to\": {}}}]}}", inner) };
+        bytes = doc.into_bytes(); faults[5] += 1;
+      }
       8 => { let g: &[u8] = match rng.below(4) { 0 => b"\0\0\0\0", 1 => b"}]garbage", 2 => b"\n\n{\"mappings\": []}", _ => b"\xff\xfe" }; bytes.extend_from_slice(g); faults[5] += 1; }
       12 => { // the editor saved with a byte-order mark / as UTF-16
         if rng.chance(1, 2) { let mut b = vec![0xEFu8, 0xBB, 0xBF]; b.extend_from_slice(&bytes); bytes = b; } else { let mut b = vec![0xFFu8, 0xFE]; for x in &bytes { b.push(*x); b.push(0); } bytes = b; }
